@@ -31,6 +31,7 @@ import (
 	"math/big"
 	"math/rand/v2"
 	"net/netip"
+	"os"
 	"sort"
 	"strings"
 	"sync"
@@ -147,6 +148,14 @@ type c27Addr struct {
 	lastRecvAt  time.Time
 	probes      int64 // server datagrams sent >= 900 virtual ms after the last credit
 	overshoots  int64
+	// Key classification only (never the verdict): bytes delivered from this address at the
+	// current virtual instant, which the server may or may not have processed before a send
+	// at the same instant; and the overshoot a padded Initial probe would have caused had
+	// they not been processed yet (the implementation clamps its allowance at zero, i.e.
+	// forgives that debt, so it can surface later as an overshoot of another shape).
+	instant      time.Time
+	instantBytes int64
+	maskedDebt   int64
 }
 
 type c27Log struct {
@@ -178,8 +187,12 @@ type c27Oracle struct {
 	nviol    int
 	violText []string
 
+	// dbgLimits, if set (VERIF_DEBUG, never under -race), returns the white-box
+	// antiAmplificationLimit of the server connections to an address; diagnostics only.
+	dbgLimits func(to netip.AddrPort) string
+
 	checked, credited                          int64
-	retries, vns, resets, closes, noroute, big int64
+	retries, vns, resets, closes, noroute, masked int64
 }
 
 func c27NewOracle(viol func(key, detail string)) *c27Oracle {
@@ -299,6 +312,13 @@ func (o *c27Oracle) onSend(rec vlpDgramRec, b []byte) {
 		o.noroute++
 	}
 	note := ""
+	if o.dbgLimits != nil {
+		defer func(i int) {
+			if i < len(o.log) {
+				o.log[i].Note += " impl-limit-after=" + o.dbgLimits(rec.To)
+			}
+		}(len(o.log))
+	}
 	if !a.validated {
 		before := 3*a.recv + a.slack - a.sent
 		a.sent += int64(rec.Size)
@@ -307,16 +327,25 @@ func (o *c27Oracle) onSend(rec vlpDgramRec, b []byte) {
 		if !a.lastRecvAt.IsZero() && time.Since(a.lastRecvAt) >= 900*time.Millisecond {
 			a.probes++
 		}
+		// padded(allow): the packets of this datagram (one of them an Initial) fit in an
+		// allowance of 128..1199 bytes; the zero padding of the datagram to exactly 1200
+		// bytes is what exceeds it
+		padded := func(allow int64) bool {
+			return strings.Contains(types, "I") && strings.HasSuffix(types, "Z") && rec.Size == 1200 && allow >= 128 && allow < 1200 && int64(c27Unpadded(b)) <= allow
+		}
 		if a.sent-a.slack > 3*a.recv {
 			over := a.sent - a.slack - 3*a.recv
 			a.overshoots++
 			var key string
 			switch {
-			case strings.Contains(types, "I") && strings.HasSuffix(types, "Z") && rec.Size == 1200 && before >= 128 && before < 1200 && int64(c27Unpadded(b)) <= before:
-				// the packets of this datagram (one of them an Initial) fit in the 128..1199
-				// bytes of allowance that were left; the zero padding of the datagram to
-				// exactly 1200 bytes is what exceeds it
+			case padded(before):
 				key = "initial-datagram-padded-to-1200-beyond-partial-allowance"
+			case a.maskedDebt > 0 && (over <= a.maskedDebt || padded(before+a.maskedDebt)):
+				// consequence of an earlier padded Initial probe that went out at the very
+				// instant a client datagram was queued for the server: the oracle had already
+				// credited that datagram, the connection had not, overshot its own allowance
+				// and clamped it at zero
+				key = "overshoot-after-padded-initial-probe-raced-a-queued-client-datagram"
 			case before < 128:
 				key = "sent-while-allowance-exhausted:" + c27First(types)
 			default:
@@ -330,10 +359,18 @@ func (o *c27Oracle) onSend(rec vlpDgramRec, b []byte) {
 			o.logf(c27Log{T: o.ms(), Dir: "s2c", Addr: rec.To.String(), Size: rec.Size, Fate: rec.Fate, Types: types, Note: note})
 			o.viol(key, detail+"\n"+o.history(60))
 			a.slack = a.sent - 3*a.recv
+			a.maskedDebt = max(0, a.maskedDebt-over)
 			if strings.HasPrefix(types, "R") {
 				a.retrySent = true
 			}
 			return
+		}
+		if a.instantBytes > 0 && a.instant.Equal(time.Now()) {
+			if strict := before - 3*a.instantBytes; padded(strict) {
+				a.maskedDebt += int64(rec.Size) - strict
+				note = fmt.Sprintf("padded Initial datagram at the instant %d client bytes were queued: exceeds the allowance by %d if they were not processed yet", a.instantBytes, int64(rec.Size)-strict)
+				o.masked++
+			}
 		}
 		if a.recv > 0 && a.sent*a.peakDen > a.peakNum*a.recv || a.peakDen == 0 && a.recv > 0 {
 			a.peakNum, a.peakDen = a.sent, a.recv
@@ -386,6 +423,10 @@ func (o *c27Oracle) onDeliver(rec vlpDgramRec, b []byte) {
 		a.recv += int64(len(b))
 		a.nRecv++
 		a.lastRecvAt = time.Now()
+		if !a.instant.Equal(a.lastRecvAt) {
+			a.instant, a.instantBytes = a.lastRecvAt, 0
+		}
+		a.instantBytes += int64(len(b))
 		o.credited++
 		// Conservative validation decision from unprotected header bits: stopping the
 		// accounting early can only weaken the check.
@@ -736,6 +777,19 @@ func c27Run(cfg *c27Config, viol func(key, detail string)) *c27Result {
 		return res
 	}
 
+	if os.Getenv("VERIF_DEBUG") != "" {
+		o.dbgLimits = func(to netip.AddrPort) string {
+			var out []string
+			srvEP.connsMu.Lock()
+			for c := range srvEP.conns {
+				if c.peerAddr == to {
+					out = append(out, fmt.Sprint(c.loss.antiAmplificationLimit)) // racy read: debugging aid only
+				}
+			}
+			srvEP.connsMu.Unlock()
+			return strings.Join(out, ",")
+		}
+	}
 	ctx, cancel := context.WithCancel(context.Background())
 	var mu sync.Mutex
 	var cli, srv *Conn
@@ -1081,6 +1135,7 @@ func TestVerif_C27(t *testing.T) {
 		r.Event("version_negotiation_datagrams", o.vns)
 		r.Event("short_datagrams_to_unvalidated_(stateless_reset)", o.resets)
 		r.Event("server_datagrams_to_unrouted_address", o.noroute)
+		r.Event("padded_initial_probes_racing_a_queued_client_datagram", o.masked)
 		r.Event("datagrams_dropped_by_fault_injector", res.net.Dropped[0]+res.net.Dropped[1])
 		r.Event("datagrams_duplicated_by_fault_injector", res.net.Duped[0]+res.net.Duped[1])
 		r.Event("datagrams_reordered_by_fault_injector", res.net.Reordered[0]+res.net.Reordered[1])
